@@ -250,7 +250,7 @@ func runC18(c *fw.Ctx, idx int) fw.Result {
 			s := []byte(rc.Seq)
 			// letters outside the alphabet, digits, punctuation and control bytes (a carriage
 			// return that is not part of a line end, 0x1F, NUL, DEL, a high-bit byte)
-			bad := "JZ*0.x\r\x1f\x00\x7f\xe9"
+			bad := "JZ*0.x\r\x1f\x00\x7f\xe9_=@[`{,+/:;<!Uu EeOo"
 			ch := bad[(idx+posIndex(len(bad), pos))%len(bad)]
 			p := (idx * 7) % len(s)
 			if ch == '\r' {
